@@ -236,6 +236,12 @@ func c46Random(t *testing.T, res *vResult) {
 		}
 		half := (ncpu + 1) / 2
 		perNode := map[int][]int{}
+		// a platform that does not describe sockets: the kernel prints physical_package_id -1 for every CPU; cores are
+		// then told apart by core_id alone
+		noPkg := rnd.Intn(4) == 0
+		if noPkg {
+			res.Hit("T:package-id-unknown")
+		}
 		for i, c := range ids {
 			node := i * nnodes / ncpu
 			if rnd.Intn(8) == 0 {
@@ -249,9 +255,13 @@ func c46Random(t *testing.T, res *vResult) {
 				phys = i % half
 			}
 			// core ids repeat across packages: package = node, core_id = phys within the package numbering
-			topo = append(topo, c46Topo{c, node, node*1000 + phys})
+			pkg, coreKey := node, node*1000+phys
+			if noPkg {
+				pkg, coreKey = -1, phys
+			}
+			topo = append(topo, c46Topo{c, node, coreKey})
 			perNode[node] = append(perNode[node], c)
-			c46Write(t, filepath.Join(cpuDir, fmt.Sprintf("cpu%d", c), "topology", "physical_package_id"), fmt.Sprintf("%d\n", node))
+			c46Write(t, filepath.Join(cpuDir, fmt.Sprintf("cpu%d", c), "topology", "physical_package_id"), fmt.Sprintf("%d\n", pkg))
 			c46Write(t, filepath.Join(cpuDir, fmt.Sprintf("cpu%d", c), "topology", "core_id"), fmt.Sprintf("%d\n", phys))
 		}
 		for node, cs := range perNode {
